@@ -39,7 +39,7 @@ def replay(g, o, assigns, path):
 
 MANIFEST = {
     "category": "proof",
-    "text": "Unbounded proof for the integer/pointer facts: every index expression in the extracted skeletons (Ritz arrays, matrix coefficients, column/block selectors) is inside the Eigen shape established by init(); the operator is always handed valid, distinct, length-n buffers; restart size in [nev, ncv-1]; operator applications are paid by an additive budget: <= 2 per added basis column, one factorization call per restart plus the first, <= maxit restarts (the closed form 2+2*ncv*(maxit+1) is that sum bounded term-wise). The statement's own work bound is a postcondition of compute(): applications <= a ghost sum adding 2*ncv once per factorization call (= 2*ncv*(restarts+1)), restarts <= maxit, init() exactly 2. Shares the dense-kernel groups of C08 / C09 / C10: unbounded index safety of the QR helpers, the Schur / tridiagonal eigen-solvers, the Householder kernels (incl. SIMD peeling) and BKLDLT on cursor models of their raw-pointer walks; the real flattened address arithmetic of those kernels is bounded at concrete n.",
+    "text": "Unbounded proof for the integer/pointer facts: every index expression in the extracted skeletons (Ritz arrays, matrix coefficients, column/block selectors) is inside the Eigen shape established by init(); the operator is always handed valid, distinct, length-n buffers; restart size in [nev, ncv-1]; operator applications are paid by an additive budget: <= 2 per added basis column, one factorization call per restart plus the first, <= maxit restarts (the closed form 2+2*ncv*(maxit+1) is that sum bounded term-wise). The statement's own work bound is a postcondition of compute(): applications <= a ghost sum adding 2*ncv once per factorization call (= 2*ncv*(restarts+1)), restarts <= maxit, init() exactly 2. Shares the dense-kernel groups of C08 / C09 / C10: unbounded index safety of the QR helpers, the Schur / tridiagonal eigen-solvers, the Householder kernels (incl. SIMD peeling) and BKLDLT on cursor models of their raw-pointer walks; the real flattened address arithmetic of those kernels is bounded at concrete n. Third session: division-site obligation in Lanczos / Arnoldi factorize_from - the new basis vector f/||f|| is formed with a strictly positive norm unless every restart attempt failed the orthogonality test.",
     "note": 'floating-point values of Eigen expressions are havocked (lossy extraction, every abstracted statement listed in the evidence); callee contracts are generated stubs sharing clause texts with the enforcing harness; std::sort/Eigen/operator contracts assumed; Skolem instantiation meta-rule',
     "technique": "CBMC dfcc frame contracts + loop contracts + harness-asserted postconditions on mechanically extracted C (cadical)",
 }
